@@ -502,6 +502,8 @@ class Interp:
             if name == "set" and isinstance(recv, T.Term) and recv.op == "getitem" and isinstance(recv.args[0], T.Term) and recv.args[0].op == "attr" and recv.args[0].args[1] == "at":
                 return T.mk("at_set", (recv.args[0].args[0], recv.args[1], *args), kwargs, origin=site)
             return T.mk("mcall", (recv, name, *args), kwargs, origin=site)
+        if f.op == "unravel_of" and len(args) == 1 and not kwargs and isinstance(args[0], T.Term) and args[0].op == "tree.ravel" and args[0].args[0] is f.args[0]:
+            return f.args[0]  # unravel(ravel(x)) == x
         return T.mk("call", (f, *args), kwargs, origin=site)
 
     def call_closure(self, fn: Closure, args, kwargs, site):
@@ -637,6 +639,8 @@ class Interp:
                 return BuiltinV("noop")
             raise AnalysisError(f"super() has no attribute {name} at {site}")
         if isinstance(obj, T.Term):
+            if name == "T" and obj.op == "attr" and obj.args[1] == "T":
+                return obj.args[0]  # (x.T).T == x
             if name == "ndim":
                 r = infer_ndim(obj)
                 if r is None and self.ndim_oracle is not None:
@@ -731,7 +735,7 @@ class Interp:
         if n in ("list", "tuple"):
             if not args:
                 return [] if n == "list" else ()
-            if isinstance(args[0], T.Term):
+            if isinstance(args[0], T.Term) and not isinstance(args[0].meta.get("length"), int):
                 return T.mk(f"py.{n}", (args[0],), origin=site)
             items = self.iterate(args[0], site)
             return list(items) if n == "list" else tuple(items)
@@ -885,7 +889,7 @@ class Interp:
         if isinstance(x, T.Term):
             n = x.meta.get("length")
             if isinstance(n, int):
-                return [T.mk("getitem", (x, i), origin=site) for i in range(n)]
+                return [self.getitem(x, i, site) for i in range(n)]
             raise AnalysisError(f"iteration over abstract value {T.show(x, 3)} at {site}")
         raise AnalysisError(f"cannot iterate over {x!r} at {site}")
 
@@ -1381,7 +1385,8 @@ class Interp:
             except KeyError:
                 raise RaiseSignal(ExcV("KeyError"), site) from None
         if isinstance(obj, T.Term):
-            n = obj.meta.get("length")
+            if obj.op == "np.stack" and isinstance(idx, int) and isinstance(obj.args[0], (list, tuple)) and obj.kwargs.get("axis", 0) == 0 and -len(obj.args[0]) <= idx < len(obj.args[0]):
+                return obj.args[0][idx]  # stack(xs)[i] == xs[i]
             return T.mk("getitem", (obj, idx), origin=site)
         if isinstance(obj, (ClassV, PrimV)):
             return obj  # Generic[...] subscripts in annotations / bases
